@@ -310,6 +310,8 @@ func GetParam(ctx *Task, expr *ast.CallExpr, params []*Param, i int) (any, *errc
 				return nil, NewRunError(ctx, errReg.Error(), p.StartPos())
 			}
 			ret = append(ret, v.V)
+			// the argument is consumed, it is not the function's return value
+			ctx.Regs.Reset()
 		}
 		return ret, nil
 	} else {
@@ -329,6 +331,8 @@ func GetParam(ctx *Task, expr *ast.CallExpr, params []*Param, i int) (any, *errc
 		if errReg != nil {
 			return nil, NewRunError(ctx, errReg.Error(), expr.ParamNormalized[i].StartPos())
 		}
+		// the argument is consumed, it is not the function's return value
+		ctx.Regs.Reset()
 		return v.V, nil
 	}
 }
